@@ -81,6 +81,12 @@ CHECKS = {
    design_ref="DESIGN.md section 6 C03",
    note=COMMON_NOTE + "Hand-modelled: Model/Framing.v (layout of TBS/TBM/SignContent/AADs over generated types). Unforgeability of signatures/MAC are hypotheses of the acceptance theorems. Defect F1 (short update path -> panic in decap) found with the insider hook and repaired (fix: 9969c420).",
    technique="Coq proof (field coverage / authenticity under ideal primitives) + in-Coq MAC recomputation + exhaustive corruption sweeps"),
+ "C04": dict(
+   category="proof",
+   text="Coq theorems (Props/C04.v): a checker for 'no failure point is reachable after a mutation of the member's state' over event lists with branches and loops is proved sound for every list (Model/Effects.v, operational semantics `runs`); it is applied to the failure-point / mutation order that the translator EXTRACTS FROM THE RUST SOURCE on every run (rs2v effects: Group::process_incoming_message with check_metadata, verify_plaintext_authentication, process_proposal, process_commit, apply_update_path, update_key_schedule, apply_pending_commit, insert_past_epoch inlined; commit_internal; apply_pending_commit): processing a public message or the content of a decrypted one, building a commit and applying the pending commit are transactional. Dynamic oracle: the encoded Snapshot is compared before/after every rejected variant of exhaustive corruption sweeps of every message kind, of late-failing insider messages (wrong confirmation tag + valid membership tag on commits with the receiver's own identity update, a removal, a re-init; missing PSK), replays, failing builds; the genuine message and the member's own traffic are still accepted afterwards. KNOWN FINDING F2d: decryption of a PrivateMessage consumes the message key before the AEAD open and content checks (reported statically and dynamically).",
+   design_ref="DESIGN.md section 6 C04",
+   note=COMMON_NOTE + "Translated: Gen/ProcessEffects.v (syntactic extraction; rules in translator/src/effects.rs; state_repo.insert/get_epoch_mut assumed atomic). Defects F2a (signer swapped early) and F2b (pending_reinit set early) found and repaired (fix: 4d33d663, c353bee5).",
+   technique="Coq proof (sound transactionality checker over source-extracted effect order) + exhaustive before/after state comparison"),
 }
 NOT_YET = {}
 props = [json.loads(l) for l in open(os.path.join(V, "properties.jsonl"))]
